@@ -10,8 +10,11 @@ import (
 
 func mkDcache(dip *inode.Inode, op *fstxn.FsTxn) {
 	dip.Dcache = dcache.MkDcache()
-	Apply(dip, op, 0, dip.Size, 100000000,
-		func(ip *inode.Inode, name string, inum common.Inum, off uint64) {
+	// Only names, inode numbers and offsets are needed: scan the entries
+	// without locking the children (Apply would lock each child while
+	// holding dip, against the inode lock order).
+	ApplyEnts(dip, op, 0, 1<<62,
+		func(name string, inum common.Inum, off uint64) {
 			dip.Dcache.Add(name, inum, off)
 		})
 }
